@@ -11,8 +11,7 @@ Line protocol (one op per line; strings are sent as `.`-separated hexadecimal co
 -/
 open MjProof MjProof.CType MjProof.Driver
 
-def hexVal (c : Char) : Option Nat :=
-  let n := c.toNat
+def hexVal (n : Nat) : Option Nat :=
   if 48 ≤ n ∧ n ≤ 57 then some (n - 48) else if 97 ≤ n ∧ n ≤ 102 then some (n - 87) else none
 
 def hexNat (s : Str) : Option Nat :=
@@ -21,57 +20,61 @@ def hexNat (s : Str) : Option Nat :=
 
 def decodeHex (w : String) : Option Str :=
   if w = "-" then some [] else
-  (w.splitOn ".").mapM (fun p => match hexNat p.toList with
-    | some n => if n.isValidChar then some (Char.ofNat n) else none
+  (w.splitOn ".").mapM (fun p => match hexNat (p.toList.map Char.toNat) with
+    | some n => if n.isValidChar then some n else none
     | none => none)
 
 def toHex (n : Nat) : String := String.ofList (Nat.toDigits 16 n)
 
 def encodeHex (s : Str) : String :=
-  if s.isEmpty then "-" else ".".intercalate (s.map (fun c => toHex c.toNat))
+  if s.isEmpty then "-" else ".".intercalate (s.map toHex)
 
-def bit (c : Char) : Option Bool := if c = '1' then some true else if c = '0' then some false else none
+def bit (c : Nat) : Option Bool := if c = 49 then some true else if c = 48 then some false else none
 
-/-- reader for the prefix form; returns the AST and the rest of the input -/
+def toStr (s : String) : Str := s.toList.map Char.toNat
+def ofStr (s : Str) : String := String.ofList (s.map Char.ofNat)
+
+/-- reader for the prefix form; returns the AST and the rest of the input
+    (86 `V`, 80 `P`, 65 `A`, 34 `"`, 40 `(`, 41 `)`, 91 `[`, 93 `]`) -/
 def readAst : Nat → Str → Option (CType × Str)
   | 0, _ => none
   | f + 1, s =>
     match s with
-    | 'V' :: c :: v :: '"' :: r =>
-      let name := r.takeWhile (· != '"')
-      match r.dropWhile (· != '"'), bit c, bit v with
+    | 86 :: c :: v :: 34 :: r =>
+      let name := r.takeWhile (· != 34)
+      match r.dropWhile (· != 34), bit c, bit v with
       | _ :: rest, some c, some v => some (.value name c v, rest)
       | _, _, _ => none
-    | 'P' :: n :: c :: v :: q :: '(' :: r =>
+    | 80 :: n :: c :: v :: q :: 40 :: r =>
       match bit n, bit c, bit v, bit q, readAst f r with
-      | some n, some c, some v, some q, some (inner, ')' :: rest) => some (.pointer inner n c v q, rest)
+      | some n, some c, some v, some q, some (inner, 41 :: rest) => some (.pointer inner n c v q, rest)
       | _, _, _, _, _ => none
-    | 'A' :: '[' :: r =>
-      let body := r.takeWhile (· != ']')
-      match r.dropWhile (· != ']') with
-      | ']' :: '(' :: r2 =>
+    | 65 :: 91 :: r =>
+      let body := r.takeWhile (· != 93)
+      match r.dropWhile (· != 93) with
+      | 93 :: 40 :: r2 =>
         let exts : Option (List Int) :=
           if body.isEmpty then some [] else
-          ((String.ofList body).splitOn ",").mapM (fun p => p.toInt?)
+          ((ofStr body).splitOn ",").mapM (fun p => p.toInt?)
         match exts, readAst f r2 with
-        | some exts, some (inner, ')' :: rest) => some (.array inner exts, rest)
+        | some exts, some (inner, 41 :: rest) => some (.array inner exts, rest)
         | _, _ => none
       | _ => none
     | _ => none
 
 def readAstAll (s : String) : Option CType :=
-  match readAst (s.length + 1) s.toList with
+  match readAst (s.length + 1) (toStr s) with
   | some (t, []) => some t
   | _ => none
 
 def showRes (r : Option CType) : String :=
   match r with
-  | some t => "ok " ++ String.ofList (show_ t) ++ " | " ++ encodeHex (decl t)
+  | some t => "ok " ++ ofStr (show_ t) ++ " | " ++ encodeHex (decl t)
   | none => "reject"
 
 def showParse (r : Option CType) : String :=
   match r with
-  | some t => String.ofList (show_ t)
+  | some t => ofStr (show_ t)
   | none => "reject"
 
 /-- the text after the op word, with the single separating blank removed -/
